@@ -361,9 +361,13 @@ func c23BodyEq(a []types.TicketBody, b []c23Ticket) bool {
 }
 
 type c23Case struct {
-	History []c23Event `json:"history"` // accepted blocks
-	Event   c23Event   `json:"event"`
+	History []c23Event   `json:"history"` // accepted blocks
+	Event   c23Event     `json:"event"`
+	Fork    *[3]c23Event `json:"fork,omitempty"` // fork-order case: e1, e2 on the state after History, e3 on step(S, e1)
 }
+
+// non-empty while a fork-order transition runs: prefixes the violation key
+var c23KeyPrefix string
 
 func c23ExtClass(s *c23State, slot int, ext []c23Ticket) string {
 	if len(ext) == 0 {
@@ -409,8 +413,11 @@ func c23Apply(r *vlib.Run, cs *blockchain.ChainState, s *c23State, ev c23Event, 
 	}
 	extClass := c23ExtClass(s, slot, ev.Ext)
 	key := fmt.Sprintf("step=%s,ext=%s,acc=%s", c23StepNames[ev.Step], extClass, c23ALen(len(s.GammaA)))
+	if c23KeyPrefix != "" {
+		key = c23KeyPrefix // one hidden-state defect = few signatures
+	}
 	where := func() string {
-		return fmt.Sprintf("after %d accepted blocks (τ=%d m=%d γ_a=%s γ_s tickets=%v): block slot %d (m′=%d, %s) tickets %v", len(c.History), s.Tau, s.Tau%c23E, c23RefTix(s.GammaA), s.Tickets != nil, slot, slot%c23E, c23StepNames[ev.Step], ev.Ext)
+		return c23KeyPrefix + fmt.Sprintf(" after %d accepted blocks (τ=%d m=%d γ_a=%s γ_s tickets=%v): block slot %d (m′=%d, %s) tickets %v", len(c.History), s.Tau, s.Tau%c23E, c23RefTix(s.GammaA), s.Tickets != nil, slot, slot%c23E, c23StepNames[ev.Step], ev.Ext)
 	}
 	if panicked {
 		r.Violation("safrole."+strings.TrimPrefix(psite, "safrole."), "go-panic", key, where()+": Go panic "+msg, c)
@@ -565,6 +572,43 @@ func c23Run(r *vlib.Run, c *c23Case, count bool) string {
 	return trace.String()
 }
 
+// ---------- fork-order pass: a transition is a function of (installed prior state, block) only ----------
+
+// install `s` as the prior state with the setters (no replay, no singleton reset), fresh posterior,
+// and push one block through the real code.
+func c23StepInstalled(r *vlib.Run, cs *blockchain.ChainState, c *c23Case, label string, s *c23State, ev c23Event) (c23State, bool, bool) {
+	c23Install(cs, s)
+	cs.GetPosteriorStates().SetState(blockchain.NewPosteriorStates().GetState())
+	c23KeyPrefix = "fork-order:" + label
+	defer func() { c23KeyPrefix = "" }()
+	return c23Apply(r, cs, s, ev, c, false, true)
+}
+
+// S --e1--> A, then S --e2--> B, then A --e3--> A2, then S --e1--> A again, in one process on installed
+// prior states; every result is compared with the reference.
+func c23Fork(r *vlib.Run, c *c23Case) {
+	s := c23Initial()
+	for _, ev := range c.History {
+		n, v, _ := c23Step(&s, ev)
+		if v != "" {
+			return
+		}
+		s = n
+	}
+	cs := c23Reset()
+	f := *c.Fork
+	A, accA, ok1 := c23StepInstalled(r, cs, c, "S-e1->A", &s, f[0])
+	_, _, ok2 := c23StepInstalled(r, cs, c, "S-e2->B(after A)", &s, f[1])
+	ok3 := true
+	if accA {
+		_, _, ok3 = c23StepInstalled(r, cs, c, "A-e3->A2(after B)", &A, f[2])
+	}
+	_, _, ok4 := c23StepInstalled(r, cs, c, "S-e1->A(again)", &s, f[0])
+	r.Eval()
+	r.Trace()
+	r.Class(fmt.Sprintf("fork-order e1-accepted=%v all-agree=%v", accA, ok1 && ok2 && ok3 && ok4))
+}
+
 // sequences longer than fullPatLen get the all-zero attempt pattern only
 func c23Events(ids, maxLen, fullPatLen int) []c23Event {
 	var exts [][]c23Ticket
@@ -616,7 +660,11 @@ func TestVerif_C23(t *testing.T) {
 
 	var rc c23Case
 	if r.IsReplay(&rc) {
-		c23Run(r, &rc, true)
+		if rc.Fork != nil {
+			c23Fork(r, &rc)
+		} else {
+			c23Run(r, &rc, true)
+		}
 		return
 	}
 
@@ -678,6 +726,31 @@ func TestVerif_C23(t *testing.T) {
 			c23Run(r, &c, true)
 			if r.WantSample() && idx%40009 == 11 {
 				r.Sample(c)
+			}
+		}
+	}
+	// ---- fork-order pass over every frontier state ----
+	var f12, f3 []c23Event
+	for step := 0; step < 5; step++ {
+		for _, x := range [][]c23Ticket{nil, {{1, 0}}, {{2, 0}, {3, 2}}} {
+			f12 = append(f12, c23Event{Step: step, Ext: x})
+		}
+	}
+	f3 = []c23Event{{Step: 0}, {Step: 0, Ext: []c23Ticket{{4, 0}}}, {Step: 2}, {Step: 2, Ext: []c23Ticket{{1, 1}, {5, 0}}}}
+	for _, n := range queue {
+		for i1, e1 := range f12 {
+			for i2, e2 := range f12 {
+				if i1 == i2 {
+					continue
+				}
+				idx++
+				if !r.Mine(idx) {
+					continue
+				}
+				for _, e3 := range f3 {
+					r.Space(1)
+					c23Fork(r, &c23Case{History: n.hist, Fork: &[3]c23Event{e1, e2, e3}})
+				}
 			}
 		}
 	}
